@@ -41,9 +41,20 @@ func runC20(c *Ctx, r *Report, tier string) {
 
 	// ---- VISIBLE
 	en := c.fname(ec)
+	collected := "" // term of the candidate list when it is built by append
 	for _, in := range c.instrs(ec, c.isCallTo("closestChoice")) {
 		call := in.(*ssa.Call)
 		names := c.resolve(call.Call.Args[1])
+		visT := "call:(*Command).sortedVisibleCommands(parseState.command(P0))"
+		if ph, isPhi := names.(*ssa.Phi); isPhi {
+			// built by collecting: one Command.Name per element of the visible list, no filter
+			y, elem, _, okC := collectIdiom(c, ph)
+			okProv := okC && c.term(y) == visT && strings.HasPrefix(c.term(elem), "Command.Name(idx("+visT+", ")
+			r.Check(okProv, "VISIBLE", en, "candidate list handed to closestChoice", c.ipos(in), "names of sortedVisibleCommands(), one per element", "candidates are "+trunc(c.term(names), 140))
+			r.Check(strings.HasPrefix(c.term(call.Call.Args[0]), "idx(parseState.retargs(P0), 0)"), "VISIBLE", en, "word compared", c.ipos(in), "the first remaining argument", "compares "+trunc(c.term(call.Call.Args[0]), 80))
+			collected = c.term(ph)
+			continue
+		}
 		ms, ok := names.(*ssa.MakeSlice)
 		okProv := ok && c.term(ms.Len) == "len(call:(*Command).sortedVisibleCommands(parseState.command(P0)))"
 		// every store into the names slice stores Command.Name of an element of that list
@@ -69,7 +80,7 @@ func runC20(c *Ctx, r *Report, tier string) {
 		var t string
 		c.within(ci.Frames, func() { t = c.term(call.Call.Args[0]) })
 		nJoin++
-		r.Check(strings.HasPrefix(t, "slice(makeslice[[]string](len(call:(*Command).sortedVisibleCommands("), "VISIBLE", en, "enumeration source", c.ipos(ci.In), "all names but the last are joined, the last is appended separately", "enumeration joins "+trunc(t, 120))
+		r.Check(strings.HasPrefix(t, "slice(makeslice[[]string](len(call:(*Command).sortedVisibleCommands(") || collected != "" && strings.HasPrefix(t, "slice("+collected+", "), "VISIBLE", en, "enumeration source", c.ipos(ci.In), "all names but the last are joined, the last is appended separately", "enumeration joins "+trunc(t, 120))
 	}
 	r.Check(nJoin >= 2, "VISIBLE", en, "enumeration sites", c.pos(ec.Pos()), "both messages enumerate the visible names", fmt.Sprintf("%d enumeration sites", nJoin))
 	if len(c.instrs(ec, func(in ssa.Instruction) bool {
